@@ -26,6 +26,7 @@ ATOM_PAL = ["C", "N", "O", "S", "F", "Cl", "[CH3]", "[NH4+]", "[O-]", "[13CH4]",
 BOND_PAL = ["", "-", "=", "#"]
 RING_SYM = [("", ""), ("=", ""), ("", "="), ("=", "="), ("-", ""), ("", "-"), ("#", "#")]
 RELAXED = {"?": 12}
+ORG = ["B", "C", "N", "O", "S", "P", "F", "Cl", "Br", "I"]
 SCHEMES = ("fresh", "desc", "two", "reuse")
 
 
@@ -57,6 +58,10 @@ def plan(tier, seed):
     for n in range(3, nl + 1):
         for pi, par in enumerate(E2.parent_vectors(n)):
             tasks.append(("lenient-spellings", ("lenient", n, pi)))
+    scopes.append({"name": "organic-brackets", "elements": ORG, "spellings": ["X", "[X]", "[XH]", "[XH2]", "[X+]", "[X-]", "[13X]"],
+                   "contexts": ["S", "CS", "SC", "C(S)C", "S=C", "C1SC1", "S.S"], "tables": [RELAXED, "default"],
+                   "desc": "every organic-subset element in plain and bracket spellings (a bracket atom has no implicit H)"})
+    tasks.append(("organic-brackets", ("orgbr",)))
     scopes.append({"name": "fragments", "desc": "every ordered pair/triple of the written forms with <= 3 atoms, r <= 1 over "
                                                 "{C,=,O,[O-]}, joined by '.'", "tables": ["default"]})
     for k in range(16):
@@ -153,6 +158,15 @@ def run(task):
             for ds, pl in E2.lenient_variants(n, par, rings):
                 smi = E2.write(n, par, rings, at, bt, digit_slot=ds, paren_last=pl)
                 last = (smi, check(smi, RELAXED, r, want_accept=True, tolerant=True))
+    elif kind == "orgbr":
+        for el in ORG:
+            for sp in ("%s", "[%s]", "[%sH]", "[%sH2]", "[%s+]", "[%s-]", "[13%s]"):
+                a = sp % el
+                r.states += 1
+                for ctx in ("%s", "C%s", "%sC", "C(%s)C", "%s=C", "C1%sC1", "%s.%s"):
+                    smi = ctx % ((a,) * ctx.count("%s"))
+                    last = (smi, check(smi, RELAXED, r, want_accept=True))
+                    check(smi, "default", r)
     elif kind == "bonds":
         _, n, pi = arg
         par = list(E2.parent_vectors(n))[pi]
